@@ -129,10 +129,12 @@ def run(ctx):
         "evaluations": iters + sum(c["iterations"] for c in sched),
         "distinct_nontrivial": distinct,
         "rule": "full runs of the real Explorer (scripted model, real coolant behind a recording wrapper, scripted rand sources): "
-                "grid init{1,2,3,7} x min{1,2,10} x factor{0,0.5,0.95,1} x both coolants plus random parameters, every iteration "
+                "grid init{1,2,3,7} x min{1,2,10} x factor{0,0.5,0.95,1} x both coolants plus random parameters (factor incl. 1-ulp and "
+                "denormal), a quarter of the runs at a temperature where exp underflows to 0 with draws forced to 0 (boundary p = u), every iteration "
                 "compared on verdict, decision, base, current set, archive, countdown, step bits, LastReturnedToBase, acceptance "
                 "probability bits, temperature bits; schedule-only runs over the whole grid incl. init=20000 (up to 60000 "
-                "iterations) compared at every return. distinct_nontrivial = distinct (parameters, candidate, exp values, draw, "
+                "iterations) compared at every return (run-length encoded in the steady state), plus init in {2^31, 2^53-1, 2^53, 2^53+1, "
+                "2^62+12345, MaxInt64} compared on the first countdown. distinct_nontrivial = distinct (parameters, candidate, exp values, draw, "
                 "verdict, decision, archive) tuples among the fully compared iterations",
         "exhaustive": False,
         "full_runs": len(full), "full_iterations": iters,
